@@ -75,6 +75,7 @@ deriving DecidableEq, Repr
 structure World where
   nodes : List Node := []
   seen : List Ctx := []
+  recvs : List Nat := []        -- (ghost) the receiver each scripted method call found as `self`
 deriving DecidableEq, Repr
 
 /-- what a callable does: outcome, the context it leaves behind, the heap it leaves behind -/
@@ -159,6 +160,28 @@ def scripted (o : Outcome) (leak k : Nat) : Behaviour := fun _ c w =>
 
 /-- the call fails before the body runs (arguments do not fit the signature): `TypeError` from the interpreter -/
 def unbound (o : Outcome) : Behaviour := fun _ c w => (o, c, w)
+
+/-! ## methods: the receiver is part of the arguments
+
+Attribute access on an instance (`obj.m`) builds the bound callable afresh from the function and *that* instance
+(`partial(__method_call__, instance)`, a bound method for plain-function wrappers): nothing is remembered between
+accesses or shared between instances.  A method is therefore a family of callables indexed by the receiver. -/
+
+abbrev Method := Nat → Fn
+
+/-- scripted method: logs the receiver it was called on, then behaves like `scripted` -/
+def scriptedMethod (id name : Nat) (doc : Option Nat) (o : Outcome) (leak k : Nat) : Method := fun recv =>
+  { id := id, name := name, doc := doc,
+    run := fun a c w => scripted o leak k a c { w with recvs := w.recvs ++ [recv] } }
+
+/-- successive calls `(receiver, arguments)` through one wrapper kind, threading context and heap -/
+def callSeq (call : Fn → Nat → Ctx → World → Outcome × Ctx × World) (m : Method) :
+    List (Nat × Nat) → Ctx → World → List Outcome × Ctx × World
+  | [], c, w => ([], c, w)
+  | (recv, a) :: rest, c, w =>
+    let r := call (m recv) a c w
+    let rs := callSeq call m rest r.2.1 r.2.2
+    (r.1 :: rs.1, rs.2.1, rs.2.2)
 
 /-- the call site: blocks entered around the call, outermost first: `(kind, v)`, kind 0 = `ctx.scope`,
 1 = `ctx.updated`; scope names are 100 + position -/
